@@ -98,6 +98,8 @@ def check(run):
     U = lambda name, kind="", v=(), cond=False: dict(op="util", name=name, kind=kind, v=list(v), cond=cond)
     for v in ([], [0], [0, 0], [3], [0, 3], [0, 0, 4, 5], [6, 0, 7], [0, 8, 0]):
         plan += [U("Coal", "int", v), U("Coal", "string", v)]
+    for v in ([7], [0, 7], [7, 3], [0, 7, 0, 3], [0, 0], [3, 7]):      # 7: the value whose IsZero method answers true
+        plan.append(U("Coal", "zeroer", v))
     for cond in (True, False):
         plan += [U("Tern", v=[1, 2], cond=cond), U("TernCast", v=[1, 2], cond=cond)]
     plan += [U("Zero"), U("ZeroOf", v=[5])]
